@@ -39,13 +39,15 @@ AssignReads == UNION {IdsE(doc.rules[j].math) : j \in {i \in DOMAIN doc.rules : 
 
 GlobVal(n) == doc.params[CHOOSE i \in DOMAIN doc.params : doc.params[i].id = n].val
 \* ---------------------------------------------------------------- kinetic laws and rule maths
-KLTpls == {"uni", "bi", "sat", "diff", "const", "two"}
+\* "powpow": a1 * (sa^2)^3 - a power whose BASE is a power (libsbml writes and reads it as pow(pow(sa, 2), 3))
+KLTpls == {"uni", "bi", "sat", "diff", "const", "two", "powpow"}
 KLOfTpl(t, a1, a2, sa, sb) ==
     IF t = "uni" THEN EMul(V(a1), V(sa))
     ELSE IF t = "bi" THEN EMul(EMul(V(a1), V(sa)), V(sb))
     ELSE IF t = "sat" THEN EDiv(EMul(V(a1), EPow(V(sa), N(I(2)))), EAdd(V(a2), V(sa)))
     ELSE IF t = "diff" THEN EAdd(EMul(ESub(V(a1), V(a2)), V(sb)), V(a2))
     ELSE IF t = "const" THEN V(a1)
+    ELSE IF t = "powpow" THEN EMul(V(a1), EPow(EPow(V(sa), N(I(2))), N(I(3))))
     ELSE EMul(EMul(N(I(2)), V(a1)), V(sa))
 ATpls == {"lin", "sum", "dbl"}
 AMath(t, a1, sa, sb) == IF t = "lin" THEN EAdd(EMul(V(a1), V(sa)), N(One))
